@@ -764,7 +764,7 @@ def addressing_program(h, w, zones=8):
 # ---------------------------------------------------------------- C19 -------
 PRINT_VALUES = [
     lambda env: N(value=5), lambda env: N(value=2.5), lambda env: N(value=0), lambda env: R.Neg(N(value=3)),
-    lambda env: R.Str('abc'), lambda env: R.Str('two words'), lambda env: R.Str('C:\\new\\table'), lambda env: R.Str('"q"'), lambda env: R.CallE('noisy', [N(value=3)]), lambda env: R.Str('say "hi" twice'), lambda env: R.Var('pth'), lambda env: R.Reg('hue'), lambda env: R.Reg('kelvin'),
+    lambda env: R.Str('abc'), lambda env: R.Str('two words'), lambda env: R.Str('C:\\new\\table'), lambda env: R.Str('"q"'), lambda env: R.CallE('noisy', [N(value=3)]), lambda env: R.CallE('shown', []), lambda env: R.Str('say "hi" twice'), lambda env: R.Var('pth'), lambda env: R.Reg('hue'), lambda env: R.Reg('kelvin'),
     lambda env: R.Var('y'), lambda env: R.Var('s'), lambda env: R.Bin('+', R.Var('y'), N(value=1)),
     lambda env: R.Bin('/', R.Var('y'), N(value=2)), lambda env: R.Bin('<', N(value=1), N(value=2)),
     lambda env: R.Bin('and', N(value=1), N(value=0)), lambda env: R.CallE('twice', [N(value=4)]),
@@ -779,7 +779,8 @@ def output_program():
                  R.Assign('y', N(value=7)), R.Assign('s', R.Str('lamp')), R.Assign('name', R.Str('nm')), R.Assign('result', N(value=41)), R.Assign('Hue', N(value=-1)),
                  R.Assign('pc', N(value=-2)), R.Assign('power', R.Str('pw')), R.Assign('pth', R.Str('a\\nb')), R.Assign('x', env.num('val')),
                  R.RoutineDef('twice', ['v'], [R.Return(R.Bin('*', R.Var('v'), N(value=2)))]),
-                 R.RoutineDef('noisy', ['v'], [R.Print(R.Str('in')), R.Return(R.Bin('+', R.Var('v'), N(value=1)))])]
+                 R.RoutineDef('noisy', ['v'], [R.Print(R.Str('in')), R.Return(R.Bin('+', R.Var('v'), N(value=1)))]),
+                 R.RoutineDef('shown', [], [R.Printf('[{hue}]', []), R.Return(N(value=7))])]
 
         def out_stmt(last):
             k = ch.choose(5, [3, 3, 1, 3, 1])
@@ -803,7 +804,7 @@ def output_program():
                 fmt = ' '.join(parts) if ch.flag(0.7) else ''.join(parts)
                 nargs = sum(1 for p in (q.strip('"') for q in parts) if p.startswith('{') and not p.startswith('{{') and
                             (p[1] in '}:' or p[1].isdigit()))
-                args = [ch.pick(PRINT_VALUES[:15])(env) for _ in range(nargs)]
+                args = [ch.pick(PRINT_VALUES[:16])(env) if ch.flag(0.9) else N(value=-4) for _ in range(nargs)]
                 # keep the line state unambiguous: printf is followed by an explicit line end
                 return [R.Printf(fmt, args), R.Print(None, ln=True)]
             return [R.Action('on', [R.Operand('light', R.Str('A'))])]
